@@ -54,7 +54,7 @@ func levelInfo(info *InfoObs, chain []int) *InfoObs {
 	return cur
 }
 
-func execKey(e *Exec) string { return fmt.Sprintf("%d|%s", e.ID, e.In.String()) }
+func execKey(e *Exec) string { return fmt.Sprintf("%d|%s|t%d", e.ID, e.In.String(), e.Touch) }
 
 func multiset(es []*Exec, keepAborted bool) map[string]int {
 	m := map[string]int{}
@@ -149,6 +149,27 @@ func OracleC05(c *Case, obs *RunObs) *Failure {
 		}
 	}
 	_ = ix
+	// state survives: the updates made by the nodes of stateless nested graphs (which share the top-level
+	// state) are all there in the state every top-level interrupt reports, also after a resume
+	{
+		b := &builder{c: c}
+		done := map[int]int{}
+		for j, s := range obs.Segs {
+			for _, e := range s.Execs {
+				if !e.Abort && b.sharesTopState(ix.gOf[e.ID]) {
+					done[e.ID]++
+				}
+			}
+			if s.Class != "interrupt" || s.Info == nil || s.Info.State == nil {
+				continue
+			}
+			for id, n := range done {
+				if s.Info.Touch[id] != n {
+					return &Failure{fmt.Sprintf("call %d: the state reported by the interrupt has seen %d completed execution(s) of n%d, %d happened", j, s.Info.Touch[id], id, n), "state-update-lost"}
+				}
+			}
+		}
+	}
 	// an aborted attempt is re-run with the same (rebuilt) input
 	for i, e := range all {
 		if !e.Abort {
@@ -190,6 +211,41 @@ func OracleC05(c *Case, obs *RunObs) *Failure {
 	for k, n := range refMS {
 		if gotMS[k] != n {
 			return &Failure{fmt.Sprintf("execution %s happens %d time(s) in the uninterrupted run, %d in the interrupted one", k, n, gotMS[k]), "execution-lost"}
+		}
+	}
+	// state handlers: the pre-handler of a node runs once per execution in both runs; only a node that
+	// asked for a rerun runs it again (to rebuild its input) — in particular a nested graph that
+	// continues from its nested checkpoint does not run it again
+	{
+		refPre, gotPre, aborts := map[int]int{}, map[int]int{}, map[int]int{}
+		for _, ev := range ref.Events {
+			if ev.Kind == "pre" {
+				refPre[ev.ID]++
+			}
+		}
+		for _, s := range obs.Segs {
+			for _, ev := range s.Events {
+				if ev.Kind == "pre" {
+					gotPre[ev.ID]++
+				}
+			}
+		}
+		for _, e := range all {
+			if e.Abort {
+				aborts[e.ID]++
+			}
+		}
+		ids := map[int]bool{}
+		for id := range refPre {
+			ids[id] = true
+		}
+		for id := range gotPre {
+			ids[id] = true
+		}
+		for id := range ids {
+			if gotPre[id] != refPre[id]+aborts[id] {
+				return &Failure{fmt.Sprintf("the state pre-handler of n%d ran %d time(s) in the interrupted run, %d in the uninterrupted one (+%d aborted attempts)", id, gotPre[id], refPre[id], aborts[id]), "pre-handler-count"}
+			}
 		}
 	}
 	a, b := perNode(ref.Execs), perNode(all)
@@ -319,7 +375,9 @@ func OracleC06(c *Case, obs *RunObs) *Failure {
 			if s.NodeErr {
 				continue // another node of the same step failed: the error wins, nothing is claimed
 			}
-			if s.Class != "interrupt" && s.Class != "done" {
+			// the segment of the node's own graph ends with that step: interrupted, done, or failed in the
+			// channel layer; for a top-level node a call that runs into the step limit has gone on
+			if len(ch) == 1 && s.Class == "steplimit" {
 				return &Failure{fmt.Sprintf("call %d: interrupt-after node %s completed but the call ended with %s", j, e.Path, s.Class), "after-no-stop"}
 			}
 			single := true
